@@ -78,6 +78,10 @@ def run(ctx):
         try:
             vs = value_set(es, cond, swvar.get("d"), 16)
             top = max(b for a, b in vs) if vs else 0
+            r.ob(es.q, "range arm `%s` domain" % es.text(cond), top <= 0xFF,
+                 "the arm rewrites units up to %#x; \\u00XX has two significant hex digits, so it may only apply to units <= 0xFF "
+                 "(for char16_t/char32_t/wchar_t the test must look at the whole unit)" % top, es.loc(ifn))
+            top = min(top, 0xFF)
             vals = [jsontab.const_of(m, es, w[1]) for w in writes]
             ok = len(writes) == 6 and vals[:4] == [ord("\\"), ord("u"), ord("0"), ord("0")]
             why = "prefix %s" % vals[:4]
@@ -164,8 +168,10 @@ def run(ctx):
         if name in ("UIntLong", "IntLong", "Double"):
             fld = {"UIntLong": "Natural", "IntLong": "Integer", "Double": "Real"}[name]
             ok = ok and any(sv.nodes[i].get("n") == fld for s in stmts for i in sv.walk(s))
-        if name == "Double":
-            ok = ok and any(sv.nodes[i].get("n") == "precision" for s in stmts for i in sv.walk(s))
+        if name in ("Double", "ValuePtr", "Object", "Array"):
+            # the caller's precision must reach every nested writer
+            cs = [c for s in stmts for c in astq.calls(sv, w[1], s)]
+            ok = ok and bool(cs) and all(sv.nodes[sv.strip(sv.call_args(c)[-1])].get("n") == "precision" and len(sv.call_args(c)) == 3 for c in cs)
         r.ob(sv.q, "case " + name, ok, "arm uses %s" % w[1], sv.loc(stmts[0]))
     # container writers
     for fname, open_c, close_c in (("stringifyObject", "SCurlyChar", "ECurlyChar"), ("stringifyArray", "SSquareChar", "ESquareChar")):
